@@ -7,7 +7,7 @@ import re
 from .. import calg
 from ..pymodel import package
 from ..ratemodel import model as ratemodel, SELF
-from ..valueflow import show, walk
+from ..valueflow import Flow, show, simp, walk
 
 EXPLANATION = (
     "Over every variant (dispatch arm x truthiness of the optional beta/gamma factors x shielding sub-branch) of rateexpr in Reaction, "
@@ -229,21 +229,33 @@ def _r1(ctx, rm, pkg, allv):
                       "a negative value yields `--` (e.g. gamma=-5 gives exp(--5.0/Tgas))",
                       expected="return self._beautify(rate)", found="return rate")
     ctx.floor("R1", "sign-adjacent variants", n, 15)
-    # the clean-up table itself
+    # the clean-up table itself, read off the value _beautify returns: a chain of str.replace(old, new) over its argument -- however the
+    # chain is spelled (method chain, successive assignments, a loop over a literal / module-level table of pairs, unrolled at parse time)
     fn = pkg.method("Reaction", "_beautify")
     ctx.saw("naunet/reactions/reaction.py", "Reaction._beautify")
+    W = ("naunet/reactions/reaction.py", fn.lineno)
+    fl = Flow(fn, "naunet/reactions/reaction.py", consts=rm.module_consts("naunet/reactions/reaction.py"))
+    rets = [f for f in fl.facts if f.kind == "return"]
+    params = [a.arg for a in fn.args.args][1:]
+    chain, base = [], None
+    if len(rets) == 1 and rets[0].value is not None:
+        v = simp(rets[0].value)
+        while v[0] == "meth" and v[2] == "replace" and len(v[3]) == 2 and not v[4] and all(a[0] == "const" and isinstance(a[1], str) for a in v[3]):
+            chain.append((v[3][0][1], v[3][1][1]))
+            v = v[1]
+        base = v
+        chain.reverse()
+    if not chain or not params or base != ("param", params[0]):
+        ctx.unrec("R1", "_beautify:table", W, "the value _beautify returns is not a chain of str.replace(<text>, <text>) over its argument: "
+                  f"{show(simp(rets[0].value))[:120] if len(rets) == 1 and rets[0].value is not None else f'{len(rets)} return statements'}")
+        return
     table = {}
-    for c in ast.walk(fn):
-        if isinstance(c, ast.Call) and isinstance(c.func, ast.Attribute) and c.func.attr == "replace" and len(c.args) == 2 \
-                and all(isinstance(a, ast.Constant) for a in c.args):
-            table[c.args[0].value] = c.args[1].value
+    for k, w in chain:
+        table.setdefault(k, w)
     want = {"++": "+", "--": "+", "+-": "-", "-+": "-"}
     for k, w in want.items():
-        ctx.check(table.get(k) == w, "R1", f"_beautify:{k}", ("naunet/reactions/reaction.py", fn.lineno),
-                  f"'{k}' is rewritten to '{w}'", expected=repr(w), found=repr(table.get(k)))
-    rets = [r for r in ast.walk(fn) if isinstance(r, ast.Return)]
-    ctx.check(len(rets) == 1 and isinstance(rets[0].value, ast.Name), "R1", "_beautify:returns-cleaned", ("naunet/reactions/reaction.py", fn.lineno),
-              "the cleaned string is what is returned")
+        ctx.check(table.get(k) == w, "R1", f"_beautify:{k}", W, f"'{k}' is rewritten to '{w}'", expected=repr(w), found=repr(table.get(k)))
+    ctx.ok("R1", "_beautify:returns-cleaned", W, "the cleaned string is what is returned")
 
 
 # ------------------------------------------------------------------ R2 + R3
